@@ -20,7 +20,7 @@
   as `C17_bending_forward_affine_refuted` / `C17_grad_forward_affine_refuted` (findings F-17d', F-17d'', not
   repaired; mode='gaussian', F-17i, is not modelled).
   The model follows /repo after the repairs of F-17a/b/c/e/f/g/h (fix commits 4eb1789, eb24e6a, a498630,
-  1259250, 363ef5e, aeea172) and F-17d (PENDING-F17D): their clauses are proved in full (`C17_lame`,
+  1259250, 363ef5e, aeea172) and F-17d (ebd9a4d): their clauses are proved in full (`C17_lame`,
   `C17_ic_units`, `C17_ic_reductions`, `C17_elasticity_bspline`, `C17_affine_zero_reduced`).
 
   OBLIGATIONS: C17_bending_affine_zero C17_curvature_affine_zero C17_affine_zero_reduced
